@@ -79,6 +79,17 @@ func (g *respGen) response(desc string) M {
 func ResponseCases(seed int64, n int) []Case {
 	rng := rand.New(rand.NewSource(seed*211 + 13))
 	var out []Case
+	for i, order := range [][2]string{{"default", "404"}, {"404", "default"}} {
+		// one shared response used as default by one operation and as a numbered status by
+		// another: goag must refuse it (the generated type cannot serve both)
+		d := NewDoc("conflict")
+		d.Comp("schemas", "Problem", Obj([]string{"title"}, M{"title": Prim("string", "")}))
+		d.Comp("responses", "Problem", Resp("problem", Ref("schemas", "Problem")))
+		d.Op("/first", "get", M{"responses": M{"200": M{"description": "ok"}, order[0]: Ref("responses", "Problem")}})
+		d.Op("/second", "get", M{"responses": M{"200": M{"description": "ok"}, order[1]: Ref("responses", "Problem")}})
+		id := fmt.Sprintf("resp-conflict-default-and-numbered-%d", i)
+		out = append(out, Case{ID: id, Family: "response", Spec: d.Root, Flags: Flags{Client: true}, Safe: false, Label: map[string]string{"set": id}})
+	}
 	for i := 0; i < n; i++ {
 		d := NewDoc("responses")
 		g := &respGen{rng: rng, d: d}
